@@ -186,6 +186,34 @@ def run(ctx):
                 bad.append("moved %s of %s" % (names, order))
             ctx.check(not bad, "R9.2", inst, mv.loc(), "; ".join(bad))
 
+    # ---- R9.2 (each copy is complete before the next file is touched) -----------------------------------
+    # move_thread_to_final on its successful path: the destination stream opened for writing is closed (its
+    # buffered tail reaches the file) before the function returns 0 and before the source is removed; otherwise
+    # the tail is written at exit, after the metadata of the same stream has been moved
+    mtf = prog.fn("move_thread_to_final", OV)
+
+    def s_fopen9(ex_, st, args, f_, e):
+        mode = args[1][1] if len(args) > 1 and args[1][0] == "str" else "?"
+        return [(PTR("FILE:" + mode), {})]
+    sums9 = {"fopen": s_fopen9, "fread": lambda ex_, st, a, f_, e: [(INT(0), {})],
+             "ferror": lambda ex_, st, a, f_, e: [(INT(0), {})], "fclose": lambda ex_, st, a, f_, e: [(INT(0), {})],
+             "fflush": lambda ex_, st, a, f_, e: [(INT(0), {})], "remove": lambda ex_, st, a, f_, e: [(INT(0), {})]}
+    ex9 = absint.Explorer(prog, effects=eff, summaries=sums9, loop_bound=3)
+    outs9 = [o for o in ex9.run(mtf, [("str", "TMP/stream.obs"), ("str", "FINAL/stream.obs")], {})
+             if o.kind == "ret" and o.ret == INT(0)]
+    ctx.need(outs9, "move_thread_to_final: no successful path")
+    bad9 = []
+    for o in outs9:
+        calls = [(ev[1], ev[2]) for ev in o.events if ev[0] == "call"]
+        closes = [i for i, c in enumerate(calls) if c[0] in ("fclose", "fflush") and c[1] and c[1][0] == PTR("FILE:w")]
+        removes = [i for i, c in enumerate(calls) if c[0] in ("remove", "unlink")]
+        if not closes:
+            bad9.append("returns success without closing (flushing) the destination file: the end of the copy stays in "
+                        "a stdio buffer until the process exits")
+        elif removes and min(removes) < closes[0]:
+            bad9.append("removes the source before the destination is closed")
+    ctx.check(not bad9, "R9.2", "move_thread_to_final:copy-complete-on-return", mtf.loc(), "; ".join(sorted(set(bad9))))
+
     # ---- R9.4 ---------------------------------------------------------------------------------
     ctx.rule("R9.4", "create_trace_stream opens <procdir>/thread.<tid>/stream.obs and thread_metadata_store writes "
              "<procdir>/thread.<tid>/stream.json with the same procdir (the temporary one when OVNI_TMPDIR is in "
